@@ -72,6 +72,11 @@ type kase struct {
 	// AmbiguousWorld: the world changed while the operator was being built; the expected-follower clause
 	// (which depends on the store states the builder was entitled to see) is skipped and counted.
 	AmbiguousWorld bool `json:"ambiguous_world,omitempty"`
+	// world-change-during-build, deterministic form: store FlipStore becomes FlipTo at the FlipAt-th store
+	// lookup of the build.
+	FlipStore uint64 `json:"flip_store,omitempty"`
+	FlipTo    string `json:"flip_to,omitempty"`
+	FlipAt    int    `json:"flip_at,omitempty"`
 }
 
 func metaRole(r string) metapb.PeerRole {
